@@ -59,14 +59,16 @@ const (
 	shapeAfterSymlink = "after-symlink" // symlink-mode entry "a" (target "../..") then the file entry
 )
 
-// Destination forms (what is passed to Unzip). "abs" is <base>/d; the relative ones are resolved against the
-// working directory <base>.
+// Destination forms (what is passed to Unzip). The destination directory is called "a" (a token of the alphabet, so
+// that names such as "../aa" reach a sibling sharing its name prefix). "abs" is <base>/a; the relative ones are
+// resolved against the working directory <base>.
 const (
+	destName     = "a"
 	destAbs      = "abs"
 	destAbsSlash = "abs/"
-	destRel      = "d"
-	destDotRel   = "./d"
-	destUpRel    = "d/../d"
+	destRel      = "a"
+	destDotRel   = "./a"
+	destUpRel    = "a/../a"
 	destDot      = "."
 	destEmpty    = ""
 )
@@ -163,18 +165,18 @@ type bound struct {
 // space builds the blocks of a tier.
 //
 // Unzip starts with destination = filepath.Clean(destination): the seven destination forms collapse to the three
-// "core" forms {absolute, "d", "."} right away, and under "." Unzip refuses every name that is not the destination
+// "core" forms {absolute, "a", "."} right away, and under "." Unzip refuses every name that is not the destination
 // itself. The blocks spend the budget accordingly (every block is a full product of the dimensions it lists):
 //
 //	all-forms : names <= AllFormsTokens            x {file, dir, after-dir} x 7 destination forms x {os, mem}
-//	full      : names <= FullTokens (the rest)     x {file, dir, after-dir} x {abs, d} x {os, mem}, "." on mem
-//	long      : names <= MainTokens (the rest)     x {file, dir} x {abs, d} on mem; {file} x {abs, d} on os   (thorough)
-//	            names <= MainTokens (the rest)     x {file, dir} x abs x {os, mem}, d on mem                  (quick)
-//	deep      : deep sub-alphabet <= DeepTokens    x {file, dir, after-dir} x abs x {os, mem}, d on mem
-//	shapes    : variant names x {deflate, symlink, after-symlink} x {abs, d} x {os, mem}
-//	limits    : variant names x {file, dir} x {abs, d} x {os, mem} x {non-recursive limits, recursive limits}
-//	dest-missing : variant names x {file, dir} x {abs, abs/, d, d/../d} x {os, mem}, destination absent
-//	nested1/2 : variant names inside an inner archive at depth 1 / 2, recursive limits, {file, dir} x {abs, d} x {os, mem}
+//	full      : names <= FullTokens (the rest)     x {file, dir, after-dir} x {abs, a} x {os, mem}, "." on mem
+//	long      : names <= MainTokens (the rest)     x {file, dir} x {abs, a} on mem; {file} x {abs, a} on os   (thorough)
+//	            names <= MainTokens (the rest)     x {file, dir} x abs x {os, mem}, a on mem                  (quick)
+//	deep      : deep sub-alphabet <= DeepTokens    x {file, dir, after-dir} x abs x {os, mem}, a on mem
+//	shapes    : variant names x {deflate, symlink, after-symlink} x {abs, a} x {os, mem}
+//	limits    : variant names x {file, dir} x {abs, a} x {os, mem} x {non-recursive limits, recursive limits}
+//	dest-missing : variant names x {file, dir} x {abs, abs/, a, a/../a} x {os, mem}, destination absent
+//	nested1/2 : variant names inside an inner archive at depth 1 / 2, recursive limits, {file, dir} x {abs, a} x {os, mem}
 //
 // variant names = main alphabet <= VariantTokens plus deep sub-alphabet <= VariantDeepTokens.
 func space(thorough bool) ([]*block, bound) {
